@@ -167,9 +167,13 @@ CLAIMED["C09"] = dict(
          "length (formatter_meets_spec; via per-writer lemmas for sign, zero-fill, '#', zero value with zero precision, negative '*' "
          "width and the padding insertion offsets); laws of the specification: digits are positional notation in every base 2..16 "
          "without leading zero (natDigits_value), rounding is to nearest with ties to even on the exact quotient "
-         "(roundDiv_nearest_even), field padding law. PARTIAL for f F e E g G: the model places the specification's sign and padding "
-         "around the digit text (float_text_partial); that the implementation's Ryu digit generation yields the specification's "
-         "digits is established by correspondence only (all generated cases, checked against glibc and the exact reference), not by "
+         "(roundDiv_nearest_even), field padding law. f F e E g G: on the model side proved for every value, precision, width and "
+         "flag set - the specification's text of a finite value is always a well-formed number (floatParts_wf: fixedText_wf, "
+         "expText_wf, gText_wf with its zero stripping), the converter's output steps (pf_utoa first block, blocks of nine digits, "
+         "pf_pad zeros, the d.ddd block, the exponent) spell every well-formed text (planText_bodyPlan), hence the model's text "
+         "is the specification's (float_text) and formatter_meets_spec extends to all conversions (formatter_meets_spec_all). "
+         "PARTIAL in one respect only: that the implementation's Ryu digit generation yields the specification's "
+         "digits is established by correspondence (all generated cases, checked against glibc and the exact reference), not by "
          "a theorem. The type-directed print family: each value is rendered as its default conversion (print_default_conversions) "
          "and a print call writes the concatenated text and returns its length (print_writes_text); embedded format strings go "
          "through the same formatter; gp_count_fmt_specs vs. arguments consumed is checked by correspondence only.",
